@@ -24,7 +24,7 @@ def main():
         os.makedirs(os.path.join(vw, "_seed"), exist_ok=True)
         for f in os.listdir(seed):
             p = os.path.join(seed, f)
-            if os.path.isfile(p) and os.path.getsize(p) < 5_000_000:
+            if os.path.isfile(p) and os.path.getsize(p) < 60_000_000:   # verification copy only (kept files are limited below)
                 if f.endswith((".py", ".md", ".json", ".txt", ".diff")):
                     open(os.path.join(vw, "_seed", f), "w").write(open(p).read().replace(wt, vw))
                 else:
